@@ -37,7 +37,7 @@ MIN_REACH = {
 }
 TIME_BUDGET = {"quick": 300, "thorough": 3000}
 
-KINDS = ["int", "float", "bool", "str", "complex", "tuple:2", "tuple:3", "list:2", "list:2x3", "array:3",
+KINDS = ["int", "float", "bool", "npbool", "npbool", "str", "complex", "tuple:2", "tuple:3", "list:2", "list:2x3", "array:3",
          "array:2x2", "mixed", "dict:2", "dataset:3", "dataarray:2", "multi:s,b,t", "iarray:3", "barray:2", "iarray:2x2"]
 SPLIT_KINDS = ["tuple:2", "tuple:3", "multi:s,b,t", "multi:s,a2,l2x2", "mixed"]
 
@@ -243,7 +243,7 @@ def run_case(ctx, case):
                 if not refmodel.is_missing_like(got, real):
                     bad.append("un-requested slot %s holds %r (real results look like %r)" % (
                         p, refmodel._short(got), refmodel._short(real)))
-                elif isinstance(real, (bool, str)) and got is not None:
+                elif isinstance(real, (bool, str, __import__("numpy").bool_)) and got is not None:
                     # an output that is itself a bool / str: the statement names None as its placeholder (a NaN there
                     # turns into the non-missing text 'nan' as soon as the values are put into an array of strings)
                     bad.append("un-requested slot %s of a %s output holds %r, the placeholder for bool/str is None" % (
